@@ -36,6 +36,7 @@ def stepLine (st : All) (line : String) : All × String :=
   | "C07" :: rest => (st, C07.step rest)
   | "C08" :: rest => (st, C08.step rest)
   | "C05" :: rest => let (s, o) := C05.step st.c05 rest; ({ st with c05 := s }, o)
+  | "C02" :: rest => let (s, o) := C05.step st.c05 rest; ({ st with c05 := s }, o)
   | "C13" :: rest => let (s, o) := C13.step st.c13 rest; ({ st with c13 := s }, o)
   | _ => (st, "bad-op")
 
